@@ -628,3 +628,53 @@ def layout_independent_flattening(repo, rep, rule):
                      "the same contents yields another sequence than its C-ordered twin, while the coordinates it is paired with are in index order")
     rep.ok(rule, "package", f"{n} functions", "every flatten / ravel / reshape uses index (C) order")
     return n
+
+
+def ufunc_forwarding(repo, rep, rule, prefixes=None):
+    """Every xr.apply_ufunc site hands its operands to the kernel BY POSITION: an operand that carries the name of one of the kernel's
+    parameters must sit in that parameter's slot (two scalars of the same kind swapped in the list go unnoticed by xarray: both have
+    empty core dims), keyword operands (`kwargs={..}`) must name parameters of the kernel, and operands are never re-paired by position
+    (`join="override"` and friends relabel an operand with another operand's coordinates instead of refusing to align)."""
+    from ..ufunc import sites
+    from ..astutil import expand_table_comprehension
+    n = 0
+    for s in sites(repo):
+        if prefixes and not any(s.fi.qualname.startswith(p) for p in prefixes):
+            continue
+        try:
+            ks = s.kernels()
+        except AnalysisError:
+            continue
+        n += 1
+        j = kwarg(s.call, "join")
+        if j is not None and repo.const(s.module, j) != "exact":
+            rep.fail(rule, s.fi.file, s.line, s.fi.qualname, f"join={unparse(j)}",
+                     "operands whose labels differ are paired by position (or silently padded / dropped) instead of being rejected: each spectrum is "
+                     "combined with the wind / depth / parameter value that happens to sit at the same index", anchor=f"ufunc-join:{s.fi.short}")
+        for k in ks:
+            params = [p for p in k.params if p not in ("self", "cls")]
+            bad = False
+            for i, a in enumerate(s.args):
+                e = a
+                while isinstance(e, ast.Call) and isinstance(e.func, ast.Attribute) and e.func.attr in ("astype", "chunk", "load", "compute", "persist", "fillna", "copy"):
+                    e = e.func.value
+                if isinstance(e, ast.Name) and e.id in params and i < len(params) and params.index(e.id) != i and params[i] != e.id:
+                    # the operand in slot i is named like another parameter: accept only when the slot's own name is passed nowhere (a deliberate re-use)
+                    others = {x.id for x in s.args if isinstance(x, ast.Name)}
+                    if params[i] in others:
+                        rep.fail(rule, s.fi.file, s.line, s.fi.qualname, f"operand {i}: {e.id} -> parameter '{params[i]}' of {k.name}",
+                                 f"'{e.id}' is passed in the slot of '{params[i]}' while '{params[i]}' is passed elsewhere: the two are exchanged on the way "
+                                 "to the kernel (positional forwarding)", anchor=f"ufunc-swap:{s.fi.short}:{e.id}")
+                        bad = True
+            kw = kwarg(s.call, "kwargs")
+            if isinstance(kw, ast.Dict):
+                a_ = k.node.args
+                if a_.kwarg is None:
+                    for kk in kw.keys:
+                        nm = repo.const(s.module, kk) if kk is not None else None
+                        if isinstance(nm, str) and nm not in k.params:
+                            rep.fail(rule, s.fi.file, s.line, s.fi.qualname, f"kwargs key '{nm}'", f"{k.name} has no parameter '{nm}'")
+                            bad = True
+            if not bad:
+                rep.ok(rule, s.where, f"{k.name}({', '.join(unparse(a)[:18] for a in s.args)})", "operands sit in the slots of the kernel parameters they are named after; default join")
+    return n
